@@ -132,7 +132,7 @@ SPEC = {
     "theorems": SKELETON_THEOREMS + [
                  "C12_shrink_callbacks_atomic", "C12_shrink_callbacks_no_deadlock", "C12_shrink_early_condition_witness",
                  "C12_shrink_history_check_sound", "C12_shrink_foreach_snapshot",
-                 "C12_shrink_refines_plain_map", "C12_shrink_rule_unobservable", "C12_shrink_thresholds_unobservable",
+                 "C12_shrink_refines_plain_map", "C12_shrink_rule_unobservable", "C12_shrink_thresholds_unobservable", "C12_shrink_rule_ieee_specials",
                  "C12_plain_map_laws", "C12_shrink_garbage_le_deleted", "C12_shrink_count_threshold_bounds_garbage",
                  "C12_rmap_index_invariant", "C12_rmap_refines_plain_map", "C12_rmap_pick_is_member", "C12_rmap_unique_entries",
                  "C12_heap_invariant", "C12_heap_pop_is_best", "C12_heap_remove_idempotent", "C12_heap_pop_in_priority_order",
